@@ -1,6 +1,623 @@
-//! C03 — not built yet.
-use crate::report::{Ctx, Reporter};
+//! C03 — HTTP/1 reuse discipline: close means close; unread bodies are never reparsed.
+//!
+//! Obs: handler invocations (target, order), the wire, bytes the server took from the socket.
+//! Oracles: (1) after the first response that ends the connection (announces `connection: close`,
+//! answers an HTTP/1.0 request without keep-alive, or is a server-generated error response)
+//! nothing more is written and no further handler runs — also not for requests that were already
+//! pipelined behind it; (2) the sequence of dispatched requests is a prefix of the ground-truth
+//! request list: bodies are stuffed with request look-alikes, so body bytes a handler ignored that
+//! get interpreted as a request show up as a foreign target or as a spurious 400.
 
-pub fn run(_ctx: &Ctx, rep: &mut Reporter) {
-    rep.inconclusive("C03 monitor not built");
+use serde_json::{json, Value};
+
+use crate::{
+    gen::h1::{body_bytes, CANARY},
+    refmodel::h1_resp::{self, RefResp},
+    report::{guard, panic_site, Ctx, Reporter},
+    util::{esc_short, Rng},
+    world::{
+        conn::ConnCfg,
+        run::{acts_from_json, acts_to_json, run_scenario, Act, Outcome, Scenario},
+        svc::{fill_data, BStep, BodyKind, Conn, Prog, ReadMode},
+    },
+};
+
+#[derive(Clone, Debug, PartialEq)]
+pub struct Req3 {
+    pub method: &'static str,
+    pub v10: bool,
+    /// 0 none, 1 close, 2 keep-alive
+    pub conn: u8,
+    /// 0 no body, 1 content-length, 2 chunked
+    pub framing: u8,
+    pub body_len: usize,
+    pub body_seed: u64,
+}
+
+impl Req3 {
+    fn body(&self, i: usize) -> Vec<u8> {
+        let mut rng = Rng::new(self.body_seed);
+        body_bytes(&mut rng, self.body_len, 100 + i)
+    }
+    fn bytes(&self, i: usize) -> Vec<u8> {
+        let mut s = format!("{} /r{} HTTP/1.{}\r\nHost: t\r\n", self.method, i, if self.v10 { 0 } else { 1 });
+        match self.conn {
+            1 => s.push_str("Connection: close\r\n"),
+            2 => s.push_str("Connection: keep-alive\r\n"),
+            _ => {}
+        }
+        let body = self.body(i);
+        match self.framing {
+            1 => s.push_str(&format!("Content-Length: {}\r\n", body.len())),
+            2 => s.push_str("Transfer-Encoding: chunked\r\n"),
+            _ => {}
+        }
+        s.push_str("\r\n");
+        let mut v = s.into_bytes();
+        match self.framing {
+            1 => v.extend_from_slice(&body),
+            2 => {
+                let mut p = 0;
+                let mut k = self.body_seed as usize;
+                while p < body.len() {
+                    k = k.wrapping_mul(31).wrapping_add(7);
+                    let n = (body.len() - p).min(1 + k % 3000);
+                    v.extend_from_slice(format!("{:x}\r\n", n).as_bytes());
+                    v.extend_from_slice(&body[p..p + n]);
+                    v.extend_from_slice(b"\r\n");
+                    p += n;
+                }
+                v.extend_from_slice(b"0\r\n\r\n");
+            }
+            _ => {}
+        }
+        v
+    }
+    fn wants_close(&self) -> bool {
+        self.conn == 1 || (self.v10 && self.conn != 2)
+    }
+    fn tag(&self) -> String {
+        format!("{}{}{}{}", &self.method[..1], if self.v10 { "0" } else { "1" }, ["", "c", "k"][self.conn as usize], ["", "L", "T"][self.framing as usize])
+    }
+    fn to_json(&self) -> Value {
+        json!({"method": self.method, "v10": self.v10, "conn": self.conn, "framing": self.framing, "body_len": self.body_len, "body_seed": self.body_seed})
+    }
+    fn from_json(v: &Value) -> Self {
+        Req3 {
+            method: match v["method"].as_str() {
+                Some("POST") => "POST",
+                Some("PUT") => "PUT",
+                Some("HEAD") => "HEAD",
+                _ => "GET",
+            },
+            v10: v["v10"].as_bool().unwrap_or(false),
+            conn: v["conn"].as_u64().unwrap_or(0) as u8,
+            framing: v["framing"].as_u64().unwrap_or(0) as u8,
+            body_len: v["body_len"].as_u64().unwrap_or(0) as usize,
+            body_seed: v["body_seed"].as_u64().unwrap_or(0),
+        }
+    }
+}
+
+#[derive(Clone, Debug)]
+pub struct Case {
+    pub cfg: ConnCfg,
+    pub reqs: Vec<Req3>,
+    pub progs: Vec<Prog>,
+    pub acts: Vec<Act>,
+    /// the peer half-closed somewhere inside the schedule (before all bytes were sent)
+    pub early_eof: bool,
+}
+
+impl Case {
+    fn ngates(&self) -> usize {
+        self.reqs.len() * 3
+    }
+    fn scenario(&self) -> Scenario {
+        let mut sc = Scenario::new(self.cfg.clone(), self.progs.clone(), self.ngates());
+        sc.acts = self.acts.clone();
+        for g in 0..self.ngates() {
+            sc.settle.push(Act::Gate(g, 1_000_000));
+        }
+        sc.settle.push(Act::ReleaseHeld);
+        sc.settle.push(Act::Eof);
+        // with a disconnect timeout configured the linger / shutdown phase ends by timer
+        if self.cfg.disc_timeout_ms > 0 {
+            sc.settle.push(Act::Advance(self.cfg.disc_timeout_ms + 1500));
+        }
+        sc
+    }
+    fn to_json(&self) -> Value {
+        json!({"cfg": self.cfg.to_json(), "reqs": self.reqs.iter().map(|r| r.to_json()).collect::<Vec<_>>(), "progs": self.progs.iter().map(|p| p.to_json()).collect::<Vec<_>>(), "acts": acts_to_json(&self.acts), "early_eof": self.early_eof})
+    }
+    fn from_json(v: &Value) -> Case {
+        Case {
+            cfg: ConnCfg::from_json(&v["cfg"]),
+            reqs: v["reqs"].as_array().map(|a| a.iter().map(Req3::from_json).collect()).unwrap_or_default(),
+            progs: v["progs"].as_array().map(|a| a.iter().map(Prog::from_json).collect()).unwrap_or_default(),
+            acts: acts_from_json(&v["acts"]),
+            early_eof: v["early_eof"].as_bool().unwrap_or(false),
+        }
+    }
+}
+
+fn read_tag(p: &Prog) -> &'static str {
+    match p.read {
+        ReadMode::Ignore => "ignore",
+        ReadMode::All => "all",
+        ReadMode::Chunks(_) => "part",
+        ReadMode::Hold => "hold",
+        ReadMode::AfterRespond => "after",
+        ReadMode::DropFirst => "drop",
+    }
+}
+
+struct Verdict {
+    class: &'static str,
+    sig: String,
+    detail: String,
+}
+
+struct Judged {
+    verdicts: Vec<Verdict>,
+    closing_idx: Option<usize>,
+    closing_kind: &'static str,
+    kept_alive_after_unread: u64,
+    closed_after_unread: u64,
+    closed_unannounced: u64,
+    drained: u64,
+}
+
+/// Is this response one after which the connection must end?
+fn closing_kind(r: &RefResp) -> Option<&'static str> {
+    if r.req_idx_header().is_none() {
+        Some("server-error-response")
+    } else if r.has_close() {
+        Some("connection-close")
+    } else if r.version == 10 && !r.has_keep_alive() {
+        Some("http10-no-keep-alive")
+    } else {
+        None
+    }
+}
+
+fn judge(case: &Case, oc: &Outcome) -> Judged {
+    let mut j = Judged { verdicts: vec![], closing_idx: None, closing_kind: "", kept_alive_after_unread: 0, closed_after_unread: 0, closed_unannounced: 0, drained: 0 };
+    let n = case.reqs.len();
+    let cfgsig = format!("ka={} linger={} half={}", case.cfg.keep_alive_s.is_some(), case.cfg.disc_timeout_ms > 0, case.cfg.half_closed);
+    if oc.livelock {
+        j.verdicts.push(Verdict { class: "livelock", sig: "poll-cap".into(), detail: "connection kept waking itself beyond the poll cap".into() });
+        return j;
+    }
+    // (2) dispatched requests are a prefix of the ground truth
+    for (k, r) in oc.reqs.iter().enumerate() {
+        let want = format!("/r{k}");
+        if k >= n || r.target != want || r.method != case.reqs[k].method {
+            let prev = k.checked_sub(1).map(|p| format!("{} read={}", case.reqs[p].tag(), read_tag(&case.progs[p]))).unwrap_or_else(|| "start".into());
+            j.verdicts.push(Verdict {
+                class: if r.target.contains(CANARY) { "body-bytes-dispatched-as-request" } else { "foreign-request-dispatched" },
+                sig: format!("after {prev} {cfgsig}"),
+                detail: format!("handler invocation #{k} is {} {} but the {}-request ground truth has {} there", r.method, r.target, n, if k < n { want } else { "nothing".into() }),
+            });
+            return j;
+        }
+    }
+    let methods: Vec<String> = case.reqs.iter().map(|r| r.method.to_string()).collect();
+    let rp = h1_resp::parse_responses(&oc.out, &|i| methods.get(i).cloned(), true);
+    // (1) first closing response
+    let mut finals = 0usize;
+    for r in &rp.resps {
+        if r.is_interim() {
+            continue;
+        }
+        let pos = finals;
+        finals += 1;
+        if let Some(kind) = closing_kind(r) {
+            j.closing_idx = Some(pos);
+            j.closing_kind = kind;
+            // Was the next request already delivered to the server when the closing response had
+            // been written completely?  (action indices; `acts` then `settle`)
+            let a_end = oc.snaps.iter().position(|sn| sn.out_len >= r.end && r.complete).unwrap_or(usize::MAX);
+            let next = r.req_idx_header().unwrap_or(pos) + 1;
+            let arrival = if next < n {
+                // offset of the end of request `next`'s head in the concatenated stream
+                let mut off = 0usize;
+                for (k, rq) in case.reqs.iter().enumerate().take(next + 1) {
+                    let b = rq.bytes(k);
+                    if k == next {
+                        off += b.windows(4).position(|w| w == b"\r\n\r\n").map(|p| p + 4).unwrap_or(b.len());
+                    } else {
+                        off += b.len();
+                    }
+                }
+                let mut pushed = 0usize;
+                let mut a_push = usize::MAX;
+                for (ai, a) in case.acts.iter().enumerate() {
+                    if let Act::Push(d) = a {
+                        pushed += d.len();
+                        if pushed >= off {
+                            a_push = ai;
+                            break;
+                        }
+                    }
+                }
+                if a_push <= a_end { "pipelined-before-closing-response-complete" } else { "arrived-after-closing-response-complete" }
+            } else {
+                "no-next-request"
+            };
+            let ci = r.req_idx_header().unwrap_or(pos);
+            let reason = if ci >= n {
+                "none"
+            } else if case.reqs[ci].wants_close() {
+                "request-asked-close"
+            } else if case.cfg.keep_alive_s.is_none() {
+                "keep-alive-disabled"
+            } else if case.progs[ci].conn == Conn::Close {
+                "handler-forced-close"
+            } else if case.reqs[ci].v10 && !matches!(case.progs[ci].kind, BodyKind::Bytes) {
+                "http10-stream-body"
+            } else if oc.reqs.get(ci).map(|x| x.body.len() < case.reqs[ci].body_len).unwrap_or(false) {
+                "unread-request-body"
+            } else {
+                "unexplained"
+            };
+            let arrival = format!("{reason} {arrival}");
+            if r.complete && r.end < oc.out.len() {
+                j.verdicts.push(Verdict {
+                    class: "bytes-after-closing-response",
+                    sig: kind.to_string(),
+                    detail: format!("[{arrival}] {} bytes were written after response #{pos} ({} {}), which ends the connection: …{}", oc.out.len() - r.end, r.status, kind, esc_short(&oc.out[r.end..(r.end + 80).min(oc.out.len())], 120)),
+                });
+            }
+            // a handler beyond the closing response's request ran
+            let idx = r.req_idx_header().unwrap_or(pos);
+            if oc.reqs.len() > idx + 1 && r.req_idx_header().is_some() {
+                j.verdicts.push(Verdict {
+                    class: "dispatch-after-closing-response",
+                    sig: kind.to_string(),
+                    detail: format!("[{arrival}] response #{idx} ends the connection ({kind}) but {} further handler(s) ran, first {}", oc.reqs.len() - idx - 1, oc.reqs[idx + 1].target),
+                });
+            }
+            if kind == "server-error-response" {
+                // every generated stream is well-formed: an error response means bytes were
+                // interpreted that were never meant to be a request head (or a well-formed request
+                // was refused)
+                if !(case.early_eof && matches!(r.status, 400 | 408)) {
+                    let prev = pos.checked_sub(1).filter(|p| *p < n).map(|p| format!("{} read={}", case.reqs[p].tag(), read_tag(&case.progs[p]))).unwrap_or_else(|| "start".into());
+                    j.verdicts.push(Verdict {
+                        class: "spurious-error-response",
+                        sig: format!("status={} after {prev} {cfgsig}", r.status),
+                        detail: format!("the server answered {} by itself at response position {pos} although every request sent was well-formed ({} handlers ran): unread body bytes parsed as a request?", r.status, oc.reqs.len()),
+                    });
+                }
+            }
+            break;
+        }
+    }
+    if let Some((at, why)) = rp.malformed_at {
+        if j.closing_idx.is_none() {
+            j.verdicts.push(Verdict { class: "stream-malformed", sig: why.to_string(), detail: format!("response stream not well-formed at {at} ({why})") });
+        }
+    }
+    // (3) classification of what happened around unread bodies (observations + consistency)
+    for (i, rec) in oc.reqs.iter().enumerate() {
+        let body = case.reqs[i].body(i);
+        let unread = rec.body.len() < body.len();
+        if !unread || case.reqs[i].framing == 0 {
+            continue;
+        }
+        let next_ran = oc.reqs.len() > i + 1;
+        if next_ran {
+            // (the ground-truth check above already established the next request is the right one)
+            j.kept_alive_after_unread += 1;
+            j.drained += 1;
+        } else {
+            j.closed_after_unread += 1;
+            let announced = rp.resps.iter().filter(|r| !r.is_interim()).nth(i).map(|r| r.has_close() || (r.version == 10 && !r.has_keep_alive())).unwrap_or(true);
+            if !announced {
+                j.closed_unannounced += 1;
+            }
+        }
+    }
+    j
+}
+
+fn eval_case(case: &Case, rep: &mut Reporter) {
+    rep.eval();
+    let sc = case.scenario();
+    let oc = match guard(|| run_scenario(&sc)) {
+        Ok(o) => o,
+        Err(p) => {
+            rep.violation("panic", &panic_site(&p), &format!("panic while serving: {p}"), case.to_json());
+            return;
+        }
+    };
+    let j = judge(case, &oc);
+    if std::env::var("AVMON_DEBUG").is_ok() {
+        for (i, a) in sc.acts.iter().chain(sc.settle.iter()).enumerate() {
+            let sn = &oc.snaps[i];
+            let what = match a {
+                Act::Push(d) => format!("push {} bytes: {}", d.len(), esc_short(d, 70)),
+                other => format!("{other:?}"),
+            };
+            eprintln!("act {i:2} {what}\n        -> out={} reqs={} read={} done={} closed={} polls={} t={}ms", sn.out_len, sn.n_reqs, sn.bytes_read, sn.done, sn.closed, sn.polls, sn.t_ms);
+        }
+        eprintln!("result={:?} stalled={} pending_in={}", oc.result, oc.stalled, oc.pending_in);
+        for r in &oc.reqs {
+            eprintln!("req {} {} {} body={} end={:?} out_at_invoke={}", r.idx, r.method, r.target, r.body.len(), r.body_end, r.out_len_at_invoke);
+        }
+        eprintln!("wire: {}", esc_short(&oc.out, 1500));
+    }
+    rep.count("handler_invocations", oc.reqs.len() as u64);
+    rep.count("unread_body_then_next_request_served(drained)", j.kept_alive_after_unread);
+    rep.count("unread_body_then_connection_ended", j.closed_after_unread);
+    rep.count("unread_body_connection_ended_without_announcement(tolerated)", j.closed_unannounced);
+    if j.closing_idx.is_some() {
+        rep.count(&format!("closing:{}", j.closing_kind), 1);
+        if oc.pending_in > 0 || (oc.bytes_read as usize) < sc.acts.iter().map(|a| if let Act::Push(d) = a { d.len() } else { 0 }).sum::<usize>() {
+            rep.count("closing_with_pipelined_bytes_behind", 1);
+        }
+    }
+    if !oc.done {
+        rep.count("connection_still_open_at_end", 1);
+    }
+    for v in &j.verdicts {
+        let detail = format!(
+            "{} | reqs=[{}] reads=[{}] cfg ka={:?} disc={}ms half_closed={} early_eof={}",
+            v.detail,
+            case.reqs.iter().map(|r| r.tag()).collect::<Vec<_>>().join(","),
+            case.progs.iter().map(read_tag).collect::<Vec<_>>().join(","),
+            case.cfg.keep_alive_s,
+            case.cfg.disc_timeout_ms,
+            case.cfg.half_closed,
+            case.early_eof
+        );
+        rep.violation(v.class, &v.sig, &detail, case.to_json());
+    }
+    // abstract signature: (read-mode, response timing class, framing, config, outcome) per request
+    for (i, rec) in oc.reqs.iter().enumerate() {
+        let body_len = case.reqs[i].body_len;
+        let timing = if case.reqs[i].framing == 0 {
+            "nobody"
+        } else if rec.body.len() >= body_len {
+            "after-body"
+        } else if rec.body.is_empty() {
+            "before-body"
+        } else {
+            "during-body"
+        };
+        let outcome = if oc.reqs.len() > i + 1 { "continued" } else { "ended" };
+        rep.sig(&format!(
+            "{}|{}|{}|ka={} linger={} half={}|{}|{}",
+            read_tag(&case.progs[i]),
+            timing,
+            case.reqs[i].tag(),
+            case.cfg.keep_alive_s.is_some(),
+            case.cfg.disc_timeout_ms > 0,
+            case.cfg.half_closed,
+            outcome,
+            match case.progs[i].kind {
+                BodyKind::Bytes => "bytes",
+                _ => "stream",
+            }
+        ));
+    }
+}
+
+// ------------------------------------------------------------------------------------ generator
+
+fn gen_case(rng: &mut Rng) -> Case {
+    let n = match rng.below(8) {
+        0 => 1,
+        1..=4 => 2,
+        5 | 6 => 3,
+        _ => 5,
+    };
+    let mut cfg = ConnCfg::persistent();
+    if rng.chance(1, 8) {
+        cfg.keep_alive_s = None;
+    }
+    if rng.chance(1, 2) {
+        cfg.disc_timeout_ms = *rng.pick(&[1000u64, 5000]);
+    }
+    cfg.half_closed = rng.chance(1, 2);
+    let mut reqs = vec![];
+    let mut progs = vec![];
+    for i in 0..n {
+        let has_body = rng.chance(3, 4);
+        let v10 = rng.chance(1, 6);
+        let framing = if !has_body {
+            0
+        } else if v10 || rng.chance(1, 2) {
+            1
+        } else {
+            2
+        };
+        let conn = if rng.chance(1, 7) {
+            1
+        } else if v10 {
+            if rng.chance(1, 4) {
+                0
+            } else {
+                2
+            }
+        } else if rng.chance(1, 8) {
+            2
+        } else {
+            0
+        };
+        let body_len = if framing == 0 { 0 } else { *rng.pick(&[1usize, 40, 300, 3000, 20_000, 50_000, 140_000]) };
+        reqs.push(Req3 { method: if framing == 0 { "GET" } else { "POST" }, v10, conn, framing, body_len, body_seed: rng.next() });
+        let read = match rng.below(9) {
+            0 | 1 => ReadMode::Ignore,
+            2 | 3 => ReadMode::All,
+            4 => ReadMode::Chunks(rng.range(1, 3)),
+            5 => ReadMode::Hold,
+            6 => ReadMode::AfterRespond,
+            7 => ReadMode::DropFirst,
+            _ => ReadMode::All,
+        };
+        let mut p = Prog { read, ..Default::default() };
+        // gates: 3i pre (before reading), 3i+1 post (before responding), 3i+2 body waits / read gate
+        if rng.chance(1, 3) {
+            p.pre_gate = Some(3 * i);
+        }
+        if rng.chance(1, 2) {
+            p.post_gate = Some(3 * i + 1);
+        }
+        if rng.chance(1, 5) {
+            p.read_gate = Some(3 * i + 2);
+        }
+        if rng.chance(1, 3) {
+            p.kind = if rng.chance(1, 2) { BodyKind::BodyStream } else { BodyKind::SizedStream(9) };
+            p.steps = vec![BStep::Data(fill_data(4, 1)), BStep::Wait(3 * i + 2), BStep::Data(fill_data(5, 9))];
+        }
+        if rng.chance(1, 10) {
+            p.conn = Conn::Close;
+        }
+        progs.push(p);
+    }
+    // the byte stream, cut into read segments (cuts inside bodies included)
+    let mut stream = vec![];
+    let mut ends = vec![];
+    for (i, r) in reqs.iter().enumerate() {
+        stream.extend_from_slice(&r.bytes(i));
+        ends.push(stream.len());
+    }
+    let mut cuts = rng.cuts(stream.len(), 8);
+    if rng.chance(1, 2) {
+        // one segment per request: classic pipelining
+        cuts = ends[..ends.len() - 1].to_vec();
+    }
+    cuts.sort_unstable();
+    cuts.dedup();
+    let segs = crate::util::split_at_cuts(&stream, &cuts);
+    let mut lists: Vec<Vec<Act>> = vec![segs.into_iter().map(Act::Push).collect()];
+    for (i, p) in progs.iter().enumerate() {
+        if p.pre_gate.is_some() {
+            lists.push(vec![Act::Gate(3 * i, 1)]);
+        }
+        if p.post_gate.is_some() {
+            lists.push(vec![Act::Gate(3 * i + 1, 1)]);
+        }
+        let waits = p.steps.iter().filter(|s| matches!(s, BStep::Wait(_))).count() + if p.read_gate.is_some() { 6 } else { 0 };
+        if waits > 0 {
+            lists.push((0..waits).map(|_| Act::Gate(3 * i + 2, 1)).collect());
+        }
+        if p.read == ReadMode::Hold && rng.chance(1, 2) {
+            lists.push(vec![Act::ReleaseHeld]);
+        }
+    }
+    let mut acts = vec![];
+    let mut pos = vec![0usize; lists.len()];
+    let all_first = rng.chance(1, 3);
+    if all_first {
+        acts.extend(lists[0].iter().cloned());
+        pos[0] = lists[0].len();
+    }
+    loop {
+        let avail: Vec<usize> = (0..lists.len()).filter(|&k| pos[k] < lists[k].len()).collect();
+        if avail.is_empty() {
+            break;
+        }
+        let k = *rng.pick(&avail);
+        acts.push(lists[k][pos[k]].clone());
+        pos[k] += 1;
+    }
+    // peer half-close at a random point of the schedule (after which no more pushes make sense)
+    let mut early_eof = false;
+    if rng.chance(1, 6) {
+        let at = rng.below(acts.len() + 1);
+        let pushes_after = acts[at..].iter().any(|a| matches!(a, Act::Push(_)));
+        acts.retain({
+            let mut idx = 0;
+            move |a| {
+                let keep = idx < at || !matches!(a, Act::Push(_));
+                idx += 1;
+                keep
+            }
+        });
+        acts.insert(at.min(acts.len()), Act::Eof);
+        early_eof = pushes_after;
+    }
+    Case { cfg, reqs, progs, acts, early_eof }
+}
+
+/// hand-written cases around the recorded defect and the anchored branches
+fn directed() -> Vec<Case> {
+    let mut v = vec![];
+    let get = |conn: u8, v10: bool| Req3 { method: "GET", v10, conn, framing: 0, body_len: 0, body_seed: 1 };
+    let post = |framing: u8, len: usize| Req3 { method: "POST", v10: false, conn: 0, framing, body_len: len, body_seed: 7 };
+    for cfg in [ConnCfg::persistent(), ConnCfg { disc_timeout_ms: 1000, ..ConnCfg::persistent() }, ConnCfg { half_closed: false, ..ConnCfg::persistent() }] {
+        // close requested by request 0, request 1 already pipelined behind it
+        for first in [get(1, false), get(0, true)] {
+            let reqs = vec![first.clone(), get(0, false)];
+            let mut all = reqs[0].bytes(0);
+            all.extend_from_slice(&reqs[1].bytes(1));
+            v.push(Case { cfg: cfg.clone(), reqs: reqs.clone(), progs: vec![Prog::default(), Prog::default()], acts: vec![Act::Push(all.clone())], early_eof: false });
+            // same with the first handler gated so that request 1 is decoded and queued first
+            v.push(Case { cfg: cfg.clone(), reqs, progs: vec![Prog { post_gate: Some(1), ..Default::default() }, Prog::default()], acts: vec![Act::Push(all), Act::Gate(1, 1)], early_eof: false });
+        }
+        // handler-announced close with a queued request behind
+        {
+            let reqs = vec![get(0, false), get(0, false)];
+            let mut all = reqs[0].bytes(0);
+            all.extend_from_slice(&reqs[1].bytes(1));
+            v.push(Case { cfg: cfg.clone(), reqs, progs: vec![Prog { post_gate: Some(1), conn: Conn::Close, ..Default::default() }, Prog::default()], acts: vec![Act::Push(all), Act::Gate(1, 1)], early_eof: false });
+        }
+        // unread bodies of both framings, answered before / during / after arrival
+        for framing in [1u8, 2] {
+            for read in [ReadMode::Ignore, ReadMode::DropFirst, ReadMode::Chunks(1), ReadMode::Hold, ReadMode::AfterRespond] {
+                for split in [0usize, 1, 2] {
+                    let reqs = vec![post(framing, 6000), get(0, false)];
+                    let a = reqs[0].bytes(0);
+                    let b = reqs[1].bytes(1);
+                    let head_end = a.windows(4).position(|w| w == b"\r\n\r\n").unwrap() + 4;
+                    let acts = match split {
+                        0 => vec![Act::Push([a.clone(), b.clone()].concat())],
+                        1 => vec![Act::Push(a[..head_end + 100].to_vec()), Act::Push([a[head_end + 100..].to_vec(), b.clone()].concat())],
+                        _ => vec![Act::Push(a[..head_end].to_vec()), Act::Push(a[head_end..].to_vec()), Act::Push(b.clone())],
+                    };
+                    v.push(Case { cfg: cfg.clone(), reqs, progs: vec![Prog { read: read.clone(), ..Default::default() }, Prog::default()], acts, early_eof: false });
+                }
+            }
+        }
+    }
+    v
+}
+
+pub fn run(ctx: &Ctx, rep: &mut Reporter) {
+    if let Some(r) = &ctx.replay {
+        eval_case(&Case::from_json(r), rep);
+        rep.sig("replay-a");
+        rep.sig("replay-b");
+        return;
+    }
+    for (k, c) in directed().iter().enumerate() {
+        if ctx.mine(k as u64) {
+            eval_case(c, rep);
+        }
+    }
+    rep.max("directed_cases", directed().len() as u64);
+    let n = ctx.share(48_000, 2_400_000);
+    for k in 0..n {
+        if ctx.out_of_time() {
+            break;
+        }
+        let mut rng = Rng::derive(ctx.seed, 3, k * ctx.nshards + ctx.shard);
+        let case = gen_case(&mut rng);
+        eval_case(&case, rep);
+        if k == 5 {
+            let mut s = case.to_json();
+            // keep the sample readable: segment contents shortened
+            if let Some(a) = s["acts"].as_array_mut() {
+                for x in a.iter_mut() {
+                    if let Some(p) = x.get("push").and_then(|p| p.as_str()).map(|p| p.to_string()) {
+                        x["push"] = json!(format!("{}…({} chars)", &p[..p.len().min(80)], p.len()));
+                    }
+                }
+            }
+            rep.sample("random-case", s);
+        }
+    }
 }
